@@ -288,7 +288,7 @@ def parts(tier):
     extra = ["fingerprint"] * 3 + ["fingerprint_table"] * 8 + ["col_view", "set_int", "tset_cell", "tset_cell", "tset_cell", "attr_assign", "tset_col", "tset_row", "set_slice"]
     return [
         Part("histories", run, strategy=lambda t: W.program(max_steps=mx, always=("construct", "view", "write", "read"), extra_ops=extra),
-             examples=(3000, 160000), shards=(12, 16), floors={"table_read_then_written": 0.08}),
+             examples=(3000, 64000), shards=(12, 16), floors={"table_read_then_written": 0.08}),
         Part("sensitivity", run_sens, strategy=lambda t: sens_case(t), examples=(3000, 100000), shards=(4, 16)),
         Part("table_interleave", run_interleave, strategy=lambda t: interleave_case(t), examples=(3000, 100000), shards=(4, 16),
              floors={"promotion_candidates": 0.3}),
